@@ -23,10 +23,12 @@ RULE = ("cases = TimeDelta fields and str() over the 2^k battery, fractions with
         "model on month ends + random days (thorough: every day of years 1-9999); distinct = (kind, sign, fraction "
         "class, year class, month, carry class); trivial = none")
 TRUSTED = ["translator (Gen/BintimeGen.v)", "Model/Calendar.v models datetime.date.fromordinal/toordinal (outside /repo); compared with Python on every run",
-           "str()/repr() text is parsed by the harness (regex) and re-rendered; only the integers reach Coq"]
+           "Model/Text.v (render_td, render_dt): hand-written renderers, compared character by character with str() on every case; the harness's regex only "
+           "proposes the field values the Coq oracle then re-renders; repr() is evaluated by Python and compared by value"]
 ASSUMPTIONS = ["hightime/datetime compute year/month/day with the proleptic Gregorian calendar (checked against Model/Calendar.v per run)",
                "Decimal at 64 digits is exact for hightime values (<= 39 significant digits)"]
-PARTIAL = ["text layout (zero padding, stripping, 'day'/'days') is checked by the harness's re-rendering, not by a Coq theorem"]
+PARTIAL = ["the text renderers (Model/Text.v) are written by hand, not regenerated: tied to str() character by character by the correspondence; "
+           "repr() text is evaluated by Python and only its value is compared"]
 
 DT_MIN = -60052752000 * T64
 DT_MAX = 4712869095517621926724475289599
@@ -128,13 +130,18 @@ def _f9(v):
     return "(%s)" % ", ".join(vf.zc(x) for x in v)
 
 
+def _textc(s):
+    """the implementation's text as character codes: compared character by character with Model/Text.v's rendering"""
+    return "[" + "; ".join(str(ord(ch)) for ch in s) + "]"
+
+
 def to_coq(c, r):
     k = c["k"]
     z = vf.zc
     if k == "td_fields":
         return "TdFields %s %s" % (z(c["t"]), " ".join(z(x) for x in r["v"]))
     if k == "td_str":
-        return "TdStr %s %s %s" % (z(c["t"]), " ".join(z(x) for x in r["v"]), vf.boolc(r["fmt"]))
+        return "TdStr %s %s %s" % (z(c["t"]), " ".join(z(x) for x in r["v"]), _textc(r["text"]))
     if k == "dt_fields":
         return "DtFields %s %s %s" % (z(r["t"]), _f9(r["v"]), vf.boolc(r["tz"]))
     if k == "dt_from_fields":
@@ -142,7 +149,7 @@ def to_coq(c, r):
     if k == "dt_repr":
         return "DtRepr %s %s" % (z(r["t"]), vf.resc(r))
     if k == "dt_str":
-        return "DtStr %s %s %s" % (z(r["t"]), _f9(r["v"]), vf.boolc(r["fmt"]))
+        return "DtStr %s %s %s" % (z(r["t"]), _f9(r["v"]), _textc(r["text"]))
     if k == "ordinal":
         return "Ordinal %s %s" % (z(c["ord"]), " ".join(z(x) for x in r["v"]))
     raise AssertionError(k)
